@@ -58,6 +58,13 @@ Theorem C18_reencode_any_size : forall int_to_f64 narrow widen,
   exists j', from_slice_dyn widen s bs = DOk j' /\ dyn_ser int_to_f64 narrow s j' = DOk bs.
 Proof. exact reencode_any_size_nz. Qed.
 
+Example C18_reencode_any_size_nonvacuous :
+  let s := SMap (SPrim PString) (SSeq (SOption (SPrim PU16))) in
+  let j := JObj [([97], JArr [JInt 300; JNull]); ([98], JArr [])] in
+  schema_wf s = true /\ reenc_scope s = true /\ dno_zero s = true /\ json_wf_g false j = true /\
+  dyn_ser (fun _ => 0) (fun b => b) s j = DOk [2; 1; 97; 2; 1; 172; 2; 0; 1; 98; 0].
+Proof. repeat split; vm_compute; reflexivity. Qed.
+
 (* the hypotheses can be met and the encoder does accept such a value *)
 Example C18_reencode_nonvacuous :
   let widen := fun b => b in let narrow := fun b => b mod 2 ^ 32 in let i2f := fun _ : Z => 0 in
